@@ -81,6 +81,7 @@ def model(D, late_global=False, disturb=None):
     tdecl += "int[0, v + 90] tt_l;\n"                                            # type_template_local
     tdecl += "int[0,99] lfun() { return v; }\n"                                   # tfun
     tdecl += "int[0,pp] w;\n"
+    tdecl += "int[0, pp * 2 + 1] w2;\nint[-pp, pp] w3;\nbool wa[pp];\nstruct { int[0, pp + pp] f; } wr;\n"      # the parameter inside compound bounds and sizes
     params = "const int pp" + d("tparam", ", const int[0,%d] v" % UB["tparam"])
     sel = "%s : int[0,%d]" % ("v" if "select" in D else "w3", UB["select"])
     t = X.template("T", params=params, decl=tdecl,
@@ -334,6 +335,27 @@ def run_shard(arg):
                                % (q2, got2, order), {"op": "queries", "ctx": {"kind": "xml", "text": doc}, "items": [q2], "symtypes": True})
             else:
                 part.outcome("query-bound")
+        # the parameter inside compound bounds, sizes and field types of members: every occurrence is replaced by the process's argument
+        for mem in ("w2", "w3", "wa", "wr.f"):
+            for proc, arg in (("P", 7), ("P2", 5)):
+                q3 = "E<> %s.%s == %s.%s" % (proc, mem, proc, mem)
+                qr3 = w.call_safe({"op": "queries", "ctx": {"kind": "xml", "text": doc}, "items": [q3], "symtypes": True}, timeout=60)
+                part.count()
+                qrp3 = {"op": "queries", "ctx": {"kind": "xml", "text": doc}, "items": [q3], "symtypes": True}
+                if qr3.get("died"):
+                    engine.check_crash(part, PID, qr3, "query " + q3, qrp3)
+                    continue
+                sx3 = qr3["results"][0].get("sexpr") or ""
+                part.nontrivial_case(key + ":query:" + q3)
+                dots = re.findall(r"\(DOT:\d+:%s:" % mem.split(".")[0], sx3)
+                if not dots:
+                    part.violation("query:member-not-typed:%s" % mem, "`%s`: no member access in %s (%s)" % (q3, sx3[:200], qr3["results"][0].get("err")), qrp3)
+                elif "IDENTIFIER pp" in sx3 or ("(CONSTANT:INT %d)" % arg) not in sx3:
+                    part.outcome("query-misbound")
+                    part.violation("query:parameter-left-in-member-type:%s" % mem, "`%s` with %s = T(%d): the member's type still mentions the "
+                                   "template parameter (or not the argument): %s" % (q3, proc, arg, sx3[:300]), qrp3)
+                else:
+                    part.outcome("query-bound")
         exp_q = {0: first(D, "global"), 1: first(D, "tlocal", "tparam"), 3: None}
         for qi, q in enumerate(qs):
             part.count()
@@ -564,6 +586,46 @@ def run_dynamic(arg):
     return part.result()
 
 
+def run_dynamic_parameters(_):
+    """a dynamic template is announced (`dynamic D(params);`) and defined later with its own parameter list: every use of a
+    parameter name inside the definition (labels, local functions, local initialisers, types) is bound to the parameter the
+    template has - same symbol, so same type - for announcements and definitions spelled alike and with a different precision"""
+    part = engine.Part()
+    w = engine.worker("fast")
+    spell = {"alike": ("int[0,3] wk", "int[0,3] wk"), "definition-more-precise": ("int wk", "int[0,41] wk"),
+             "announcement-more-precise": ("int[0,41] wk", "int wk"), "const": ("const int[0,3] wk", "const int[0,3] wk")}
+    for sid, (ann, dfn) in spell.items():
+        for order in ("definition-first", "definition-last"):
+            for gl in ("", "bool wk; "):        # a global of the same name must never be what the uses bind to
+                worker = X.template("Worker", params=dfn, decl="int lw() { return wk; } int li = 1; int[0, 50] lr;",
+                                    locations=[X.location("w0", "Idle", inv="wk >= 2"), X.location("w1", "B")], init="w0",
+                                    transitions=[X.transition("w0", "w1", guard="wk >= 0", assign="li = wk")])
+                main_t = X.template("Main", locations=[X.location("id0", "A")], init="id0")
+                doc = X.nta(gl + "dynamic Worker(%s); int g;" % ann, [worker, main_t] if order == "definition-first" else [main_t, worker], "system Main;")
+                r = X.run_docs(w, [doc], want=["dump"])[0]
+                key = "dynamic-parameter:%s:%s:%s" % (sid, order, "global-of-that-name" if gl else "no-global")
+                rp = {"op": "xml", "buf": doc, "want": ["dump"]}
+                part.count()
+                if engine.check_crash(part, PID, r, key, rp):
+                    continue
+                part.nontrivial_case(key)
+                if r.get("errors") or r.get("exc") or not r["dump"].get("dyn_templates"):
+                    part.outcome("dynamic-parameter:not-accepted")
+                    continue
+                t = r["dump"]["dyn_templates"][0]
+                ptype = t["params"][0]["type"] if t["params"] else None
+                uses = {"guard": t["edges"][0]["guard"], "update": t["edges"][0]["assign"], "invariant": t["locations"][0]["inv"],
+                        "local-function": t["decl"]["funcs"][0]["body"] if t["decl"]["funcs"] else ""}
+                bad = [(site, sx) for site, sx in uses.items() if ("(IDENTIFIER wk:%s)" % ptype) not in (sx or "")]
+                if bad:
+                    part.outcome("dynamic-parameter:misbound")
+                    part.violation("dynamic-parameter:use-not-bound-to-parameter:%s:%s" % (sid, bad[0][0]),
+                                   "%s: the template's parameter is wk:%s but the use in the %s is %s" % (key, ptype, bad[0][0], (bad[0][1] or "")[:200]), rp)
+                else:
+                    part.outcome("dynamic-parameter:bound-to-the-parameter")
+    return part.result()
+
+
 def main():
     t = engine.tier()
     n_sub = sum(1 for _ in subsets())
@@ -587,6 +649,7 @@ def main():
         rep.merge(res)
     run_late(rep)
     rep.merge(run_dynamic(None))
+    rep.merge(run_dynamic_parameters(None))
     rep.assumptions = ["the declaration a use is bound to is identified by the upper bound of the symbol's declared range",
                        "a parameter and a local of the same name in one frame are a duplicate definition and are not enumerated"]
     sys.exit(rep.finish())
